@@ -154,7 +154,9 @@ class C12:
         mo = b.emit('model', {'kind': mk, 'sc': sc, 'alpha': alpha,
                               'optics': moptics, 'th': thk,
                               'constraints': cons,
-                              'counting': mk == 'exact'}, store='mo')
+                              'counting': (rng.choice([True, 'memo'])
+                                           if mk == 'exact' else False)},
+                    store='mo')
         cfg = {'members': members, 'alpha': alpha, 'mk': mk, 'thk': thk,
                'optics_eff': dict(optics, **({'illum_wavelen': 0.532}
                                              if optics_from == 'both'
@@ -185,7 +187,10 @@ class C12:
                 'reorder': rng.random() < 0.8}, store='pool')
         vectors = []
         for _ in range(rng.randint(4, 14)):
-            v = self.draw_vector(rng, cfg, truth)
+            # a sampler revisits points: evaluate again where we were
+            v = (dict(rng.choice(vectors))
+                 if vectors and rng.random() < 0.25
+                 else self.draw_vector(rng, cfg, truth))
             vectors.append(v)
             c = rng.random()
             d, dk = rng.choice(datas)
